@@ -109,9 +109,12 @@ def _self_fields_used(f, arg_locals=(1,)):
 
 def rule_SER(FA):
     out = []
-    props = ['C11', 'C19', 'C04', 'C09']   # a value obtained by deserializing is a state the safe API (C04) and the prefetch paths (C09) must handle
+    props0 = ['C11', 'C19', 'C04', 'C09', 'C10']   # a value obtained by deserializing is a state the safe API (C04), the prefetch paths (C09) and the twins (C10) must handle
+    from .r_arith import props_of_module
     for base in closure_adts(FA):
         adt = FA.adts[base]
+        # ... and it must answer every query of its structure's own property like the value it was written from
+        props = props0 + [x for x in props_of_module(base, default=()) if x not in props0]
         fields = [x['name'] for x in adt['fields']]
         imp = impls_of(FA, base)
         short = base.split('::')[-1]
@@ -161,6 +164,11 @@ def rule_SER(FA):
             if cond:
                 out.append(Inst('R-SER', 'R-SER|%s|serialize is unconditional' % base, 'violation', ser['span'],
                                 'serialization of %s branches on a computed condition (%s): a field is written only sometimes (skip_serializing_if), which a positional format cannot read back' % (short, cond[0]), props))
+            # a positional format (bincode) writes a struct as its fields in order: a derive that goes through a map of unknown
+            # length (`#[serde(flatten)]`) cannot be written at all (bincode: SequenceMustHaveLength)
+            if ser['derived'] and any(t['f']['fn']['name'] in ('serialize_map', 'collect_map') for bi, t in SF.calls()):
+                out.append(Inst('R-SER', 'R-SER|%s|positional form' % base, 'violation', ser['span'],
+                                'the derived Serialize of %s writes a map of unknown length (serde(flatten)): bincode rejects it, the value cannot be serialized' % short, props))
             used = _self_fields_used(ser)
             missing = [x for x in fields if x not in names and x not in used]
             skipped = [x for x in fields if x not in names] if names else []
